@@ -9,6 +9,12 @@ import contextlib
 
 def main():
     modname, inp, outp = sys.argv[1:4]
+    try:
+        # a runaway case must not take the machine down: beyond 10 GB the case fails with MemoryError (inconclusive)
+        import resource
+        resource.setrlimit(resource.RLIMIT_AS, (10 << 30, 10 << 30))
+    except Exception:      # noqa
+        pass
     from vlib import harness
     harness.repo_on_path()
     mod = importlib.import_module(modname)
